@@ -234,7 +234,7 @@ def svd(x, /, *, full_matrices=True) -> SVDResult:
 
     nb = x.numblocks
     # TODO: optimize case nb[0] == nb[1] == 1
-    if nb[0] > nb[1]:
+    if nb[0] > nb[1] or (nb[0] == nb[1] and x.shape[0] >= x.shape[1]):
         _check_tsqr_chunks(x, "svd")
         _, _, U, S, Vh = tsqr(x, compute_svd=True)
         truncate = x.shape[0] < x.shape[1]
